@@ -98,7 +98,7 @@ def run_lib(pid, tier):
     res.cov["distinct_nontrivial"] = total
     res.cov["exhaustive"] = tier == "quick" or True
     res.cov["rule"] = ("every history of Gen_Lib (initial library of 3 notes from the variant catalogue, then <= 2 updates / insertions over "
-                       "4-5 keys x 10 variants; longer histories by simulation in the thorough tier) is replayed on a real Database; after "
+                       "5 keys x 14 variants (incl. front matter and references inside quotes and items); longer histories by simulation in the thorough tier) is replayed on a real Database; after "
                        "the last step the incremental answers, the answers of a Database freshly built from the same texts, the arena and "
                        "a patch graph are recorded and judged by TLC (Trace_Lib) against Lib.tla; distinct = distinct histories")
     res.assumptions += ["note texts are rendered from the abstract notes of Gen_Lib; heading/link texts are unique words",
